@@ -55,10 +55,12 @@ CHECKS = {
             "preferred engine) from any iteration-engine tree either hands the tree back (not done) or returns a well-formed "
             "relation in the tree's engine with the columns and, as a multiset (a join defines no order), the rows of joining at "
             "the root - by induction over the tree from partial_join_commute_sound (C04), _finish_apply (C05) and the SQL join "
-            "factory below the transfer (C17). Proof "
-            "(partial): a Projection past a Deduplication (finding F04) is excluded by hypothesis; for joins the glue of apply "
-            "around backtrack_unary (_begin_apply resolving the common columns, the fall-through when back-tracking does not "
-            "finish) and payload-holding Transfers on the way; and transfer=True "
+            "factory below the transfer (C17); join_with_backtracking_sound - relation.join(fixed) end to end with its default "
+            "options (target in an iteration engine, fixed relation in a database): _begin_apply resolves the common columns, a "
+            "join that cannot be moved all the way is refused with EngineError (operands in different engines), so WHENEVER the "
+            "call succeeds the result has the columns and the multiset of rows of the join at the root. Proof "
+            "(partial): a Projection past a Deduplication (finding F04) is excluded by hypothesis; for joins transfer=True, an "
+            "explicit preferred engine other than the fixed relation's and payload-holding Transfers on the way; and transfer=True "
             "COMBINED with back-tracking towards a SQL preferred engine from an iteration-engine target, are validated by correspondence + oracle. The proof attempt itself exposed three genuine defects, now repaired. " + CORR,
             "", "DESIGN.md 5/C03"),
     "C04": (PR, "Lean 4 theorems commute_sound_partial (all 49 operation-class pairs) and partial_join_commute_sound (a join past every operation class) + machine-checked counterexample for the one unsound pair + correspondence",
@@ -182,8 +184,11 @@ CHECKS = {
             "SQL engine a unary operation applied to any raw SQL tree, and conform of one, return a well-formed relation in the "
             "same engine; the tree Processor.process returns for a tree over several iteration engines is WF, executable "
             "(chain operands share an engine, transfers lead from an iteration engine) and has the input's engine "
-            "(processed_trees_wellformed). Proof (partial): per-node expression support INSIDE SQL-engine trees, back-tracking of "
-            "joins and trees processed through a SQL engine are validated by walking every tree the real library returns, not "
+            "(processed_trees_wellformed); relation.join(fixed) with its default options, from an iteration-engine target to a "
+            "fixed relation in a database, returns - whenever it succeeds - a well-formed relation in the target's engine whose "
+            "columns are the two operands' (join_with_backtracking_wellformed, from the C03 join induction). Proof (partial): "
+            "per-node expression support INSIDE SQL-engine trees, back-tracking of "
+            "joins with non-default options and trees processed through a SQL engine are validated by walking every tree the real library returns, not "
             "proved. " + CORR, "", "DESIGN.md 5/C14"),
     "C15": (PR, "Lean 4 theorems: Transfer.simplify sound, iteration-engine transfers keep content, materialize of locked adds nothing, back-tracking stops at locked nodes, _finish_apply keeps locked nodes + regenerated is_locked table + correspondence",
             "Machine-checked: whatever Transfer.simplify hands back has the original content, the requested engine and is "
